@@ -474,6 +474,10 @@ func TestC20(t *testing.T) {
 		// several lobs in one stream (the events writer renders each on its own)
 		lobs := []model.Value{model.ClobV([]byte("ab")), model.ClobV([]byte("cd")), model.BlobV([]byte{1}), model.ClobV(nil), model.BlobV([]byte{2, 3}), model.ListV(model.ClobV([]byte("e")), model.ClobV([]byte("f")))}
 		docs = append(docs, printDoc(lobs, nil).Doc, encodeDoc(lobs, nil).Doc)
+		// symbols, annotations and field names without text ($0): judged for
+		// "no crash, exit status 0" (what becomes of them is not decided here)
+		docs = append(docs, []byte("$0::2"), []byte("{f:b::$0::3}"), []byte("$0"), []byte("{$0:1}"), []byte("[$0, a::$0]"),
+			append(append([]byte{}, refbin.IVM...), 0xE3, 0x81, 0x80, 0x20), append(append([]byte{}, refbin.IVM...), 0xD2, 0x80, 0x20), append(append([]byte{}, refbin.IVM...), 0x70))
 		for _, v := range vals {
 			docs = append(docs, printDoc([]model.Value{v}, nil).Doc, encodeDoc([]model.Value{v}, nil).Doc)
 		}
